@@ -161,6 +161,33 @@ func c14WellFormed(s *jsonapi.Schema) string {
 }
 
 func c14History(c *ctx, ops []c14Op, probes []string, how string) {
+	c14HistoryLookups(c, ops, probes, how, nil)
+	if len(ops) >= 3 {
+		// the same history with the library's lookups called on few steps only: a lookup
+		// structure that is kept up to date only when it is consulted after every edit
+		// would go unnoticed otherwise (the observation on the other steps is read off
+		// Schema.Types directly)
+		use := make([]bool, len(ops))
+		for i := range use {
+			use[i] = c.r.chance(1, 4)
+		}
+		use[len(ops)-1] = true
+		c14HistoryLookups(c, ops, probes, how+" sparse-lookups", use)
+	}
+}
+
+// libGet / libHas: the library's lookup, or (when the step does not consult the
+// library) the same answer read off Schema.Types.
+func walkGet(s *jsonapi.Schema, n string) jsonapi.Type {
+	for _, t := range s.Types {
+		if t.Name == n {
+			return t
+		}
+	}
+	return jsonapi.Type{}
+}
+
+func c14HistoryLookups(c *ctx, ops []c14Op, probes []string, how string, useLib []bool) {
 	s := &jsonapi.Schema{}
 	var steps []string
 	var key, detail string
@@ -206,9 +233,27 @@ func c14History(c *ctx, ops []c14Op, probes []string, how string) {
 		if err != nil {
 			nerr++
 		}
+		lib := useLib == nil || useLib[i]
+		has := func(n string) bool {
+			if lib {
+				return s.HasType(n)
+			}
+			for _, t := range s.Types {
+				if t.Name == n {
+					return true
+				}
+			}
+			return false
+		}
+		get := func(n string) jsonapi.Type {
+			if lib {
+				return s.GetType(n)
+			}
+			return walkGet(s, n)
+		}
 		var lk []string
 		for _, n := range probes {
-			lk = append(lk, oL([]string{oB(s.HasType(n)), oType(s.GetType(n))}))
+			lk = append(lk, oL([]string{oB(has(n)), oType(get(n))}))
 		}
 		steps = append(steps, oL([]string{oB(err == nil), oSchema(s), oL(lk)}))
 		if key != "" {
@@ -230,10 +275,10 @@ func c14History(c *ctx, ops []c14Op, probes []string, how string) {
 					break
 				}
 			}
-			if s.HasType(n) != (found != nil) {
+			if has(n) != (found != nil) {
 				key, detail = "lookup-disagrees", fmt.Sprintf("HasType(%q) after step %d", n, i)
 			}
-			gt := s.GetType(n)
+			gt := get(n)
 			if found != nil && !typesEqual([]jsonapi.Type{gt}, []jsonapi.Type{*found}) {
 				key, detail = "lookup-disagrees", fmt.Sprintf("GetType(%q) after step %d", n, i)
 			}
@@ -276,8 +321,8 @@ func c14History(c *ctx, ops []c14Op, probes []string, how string) {
 			}
 			// whenever the call reports success each side holds the relationship and its inverse
 			if err == nil && !selfInv && key == "" {
-				a, okA := s.GetType(r.FromType).Rels[r.FromName]
-				b, okB := s.GetType(r.ToType).Rels[r.ToName]
+				a, okA := get(r.FromType).Rels[r.FromName]
+				b, okB := get(r.ToType).Rels[r.ToName]
 				if !okA || !okB || a != r || b != r.Invert() {
 					key, detail = "two-way-sides-wrong", fmt.Sprintf("step %d %s returned nil: from side %s, to side %s", i, o, descRel(a), descRel(b))
 				}
